@@ -1,0 +1,90 @@
+// MIT License
+//
+// Copyright (c) 2022-2026 GoAkt Team
+//
+// Permission is hereby granted, free of charge, to any person obtaining a copy
+// of this software and associated documentation files (the "Software"), to deal
+// in the Software without restriction, including without limitation the rights
+// to use, copy, modify, merge, publish, distribute, sublicense, and/or sell
+// copies of the Software, and to permit persons to whom the Software is
+// furnished to do so, subject to the following conditions:
+//
+// The above copyright notice and this permission notice shall be included in all
+// copies or substantial portions of the Software.
+//
+// THE SOFTWARE IS PROVIDED "AS IS", WITHOUT WARRANTY OF ANY KIND, EXPRESS OR
+// IMPLIED, INCLUDING BUT NOT LIMITED TO THE WARRANTIES OF MERCHANTABILITY,
+// FITNESS FOR A PARTICULAR PURPOSE AND NONINFRINGEMENT. IN NO EVENT SHALL THE
+// AUTHORS OR COPYRIGHT HOLDERS BE LIABLE FOR ANY CLAIM, DAMAGES OR OTHER
+// LIABILITY, WHETHER IN AN ACTION OF CONTRACT, TORT OR OTHERWISE, ARISING FROM,
+// OUT OF OR IN CONNECTION WITH THE SOFTWARE OR THE USE OR OTHER DEALINGS IN THE
+// SOFTWARE.
+
+//go:build verif
+
+package actor
+
+import (
+	"context"
+	"sort"
+
+	"github.com/tochemey/goakt/v4/crdt"
+)
+
+// VerifSpawnReplicator registers the CRDT configuration extension the way
+// spawnReplicator does and spawns a Replicator under the given name on a
+// system that need not be clustered. Verification harness only.
+func VerifSpawnReplicator(ctx context.Context, sys ActorSystem, name string, config *crdt.Config) (*PID, error) {
+	impl := sys.(*actorSystem)
+	impl.extensions.Set(crdtConfigExtensionID, &crdtConfigExtension{config: config})
+	return sys.Spawn(ctx, name, newReplicatorActor(), WithLongLived())
+}
+
+// VerifPruneTick returns the message that triggers handlePrune. Verification harness only.
+func VerifPruneTick() any { return &pruneTick{} }
+
+// VerifDigestRequest returns the message a Replicator answers with its
+// anti-entropy digest (buildDigest). Verification harness only.
+func VerifDigestRequest() any { return &dataCenterDigestRequest{} }
+
+// VerifCRDTTopic is the topic Replicators publish deltas and tombstones to.
+const VerifCRDTTopic = crdtTopic
+
+// VerifReplicatorView is a read-only projection of a Replicator's state.
+type VerifReplicatorView struct {
+	NodeID     string
+	Store      map[string]crdt.ReplicatedData
+	Tombstones []string
+	Versions   map[string]uint64
+	KeyTypes   []string
+}
+
+// VerifReplicatorState projects the state of the Replicator behind pid. The
+// caller must have synchronised with the actor (a completed Ask) and must not
+// have messages in flight to it. Verification harness only.
+func VerifReplicatorState(pid *PID) *VerifReplicatorView {
+	r, ok := pid.Actor().(*replicatorActor)
+	if !ok {
+		return nil
+	}
+	v := &VerifReplicatorView{
+		NodeID:   r.nodeID,
+		Store:    make(map[string]crdt.ReplicatedData, len(r.store)),
+		Versions: make(map[string]uint64, len(r.versions)),
+	}
+	for k, d := range r.store {
+		v.Store[k] = d
+	}
+	for k, n := range r.versions {
+		v.Versions[k] = n
+	}
+	for k := range r.tombstones {
+		v.Tombstones = append(v.Tombstones, k)
+	}
+	for k := range r.keyTypes {
+		v.KeyTypes = append(v.KeyTypes, k)
+	}
+	sort.Strings(v.Tombstones)
+	sort.Strings(v.KeyTypes)
+	return v
+}
